@@ -33,9 +33,11 @@ def close(a, b, tol=T6):
   la, lb = jax.tree_util.tree_leaves(a), jax.tree_util.tree_leaves(b)
   if len(la) != len(lb):
     return False
+  # low-precision optimiser arithmetic may overflow: the same inf / nan
+  # pattern on both sides counts as agreement
   return all(np.shape(x) == np.shape(y) and np.allclose(
-      np.asarray(x, np.float64), np.asarray(y, np.float64), **tol)
-             for x, y in zip(la, lb))
+      np.asarray(x, np.float64), np.asarray(y, np.float64), equal_nan=True,
+      **tol) for x, y in zip(la, lb))
 
 
 def dtypes(tree):
@@ -286,8 +288,8 @@ def nnx_optimizer(case, ctx):
                   is_leaf=lambda v: isinstance(v, nnx.Variable))))
       require(len(got_s) == len(jax.tree_util.tree_leaves(s_ref)) and all(
           np.allclose(np.asarray(a, np.float64), np.asarray(b, np.float64),
-                      **tol) for a, b in zip(got_s, jax.tree_util.tree_leaves(
-                          s_ref))),
+                      equal_nan=True, **tol)
+          for a, b in zip(got_s, jax.tree_util.tree_leaves(s_ref))),
           lambda: f'opt_state after step {i + 1} differs from the optax loop '
           f'({case["tx"]})')
     else:
